@@ -3,10 +3,19 @@
 
    c19.arity <table> <NAME> <count>  →  lenerr | pass | no-fact
      lenerr  the facts say the function answers with the argument-length error for that number of arguments
-     pass    they say it does not (any other outcome: a value, NULL, another error) -/
+     pass    they say it does not (any other outcome: a value, NULL, another error)
+
+   c19.sizeopen                      →  the numbers of the size obligations (Csvq/Gen/SizeFacts.lean) the uniform tactic did not
+                                        prove, comma-separated (`-` = none)
+   c19.sizesearch <n>                →  cex v0,v1,…   a valuation of the obligation's variables (small integers) that satisfies
+                                                      every fact of the site and violates its goal — found by evaluating the
+                                                      same IR the theorem is about (SCond.check, proved equal to SCond.holds)
+                                        none          no such valuation in the boxes tried -/
 import Csvq.Gen.ErrFacts
+import Csvq.Gen.SizeFacts
 namespace Csvq.Drive
 open Csvq.ErrFacts
+open Csvq.SizeFacts
 
 def c19 (cmd : String) (args : List String) : String :=
   match cmd, args with
@@ -17,6 +26,19 @@ def c19 (cmd : String) (args : List String) : String :=
       match Csvq.Gen.argCountChecks.find? (fun c => c.table == table && c.name == name) with
       | none => "no-fact"
       | some c => if c.rejectsCount n then "lenerr" else "pass"
+  | "sizeopen", [] =>
+    let open_ := (Csvq.Gen.Size.sizeEntries.zipIdx.filter (fun (e, _) => !e.proof.isYes)).map (fun (_, i) => toString i)
+    if open_.isEmpty then "-" else ",".intercalate open_
+  | "sizesearch", [n] =>
+    match n.toNat? with
+    | none => "bad-op"
+    | some k =>
+      match Csvq.Gen.Size.sizeEntries[k]? with
+      | none => "bad-op"
+      | some e =>
+        match e.site.counterexample with
+        | none => "none"
+        | some l => "cex " ++ ",".intercalate (l.map toString)
   | _, _ => "bad-op"
 
 end Csvq.Drive
